@@ -114,11 +114,12 @@ class PolicyScenario(cmdscn.CmdScenario):
                         v.append('task %s delayed by %ds (%s) but its '
                                  'wake-up job is due after %ss'
                                  % (t['name'], d, t['state_info'], et[1:]))
-            if was == 'DELAYED' and t['state'] == 'ERROR' and \
-                    'timed out' in (t['state_info'] or '') and \
-                    'retry' in (p['state_info'] or ''):
+            if was == 'DELAYED' and t['state'] in ('ERROR', 'SUCCESS') \
+                    and 'retry' in (p['state_info'] or ''):
+                # a timeout or the late result of the previous attempt
+                # completes the task while its retry job is still pending
                 h = w.extra.setdefault('hist', [])
-                tag = 'timeout-fired-while-the-task-waited-for-its-retry'
+                tag = 'task-completed-while-it-waited-for-its-retry'
                 if tag not in h:
                     h.append(tag)
             if was == 'DELAYED' and t['state'] != 'DELAYED':
